@@ -244,7 +244,7 @@ _CMP = {'=': lambda a, b: a == b, '!=': lambda a, b: a != b, '<': lambda a, b: a
 class Evaluator:
     def __init__(self, tree: RefTree, namespaces=None):
         self.t = tree
-        self.ns = PATH_NAMESPACES if namespaces is None else namespaces
+        self.ns = {'xml': XML_NS, **PATH_NAMESPACES} if namespaces is None else namespaces
 
     # -- node tests ----------------------------------------------------------
     def test(self, n, axis, test):
@@ -525,6 +525,39 @@ def ep_address(node, top=None):
     if top is not None and n is not top:
         return ('?', 'foreign-root')
     return tuple(reversed(parts))
+
+
+EP_KIND = {'document': 'document', 'element': 'element', 'attribute': 'attribute', 'namespace': 'namespace',
+           'text': 'text', 'comment': 'comment', 'pi': 'processing-instruction'}
+
+
+def ep_find(top, addr):
+    """implementation node at a structural address (through children/attributes/namespace_nodes)."""
+    n = top
+    for part in addr:
+        if isinstance(part, int):
+            n = n.children[part]
+        elif part[0] == '@':
+            n = next(x for x in n.attributes if x.name == part[1])
+        else:
+            n = next(x for x in n.namespace_nodes if (x.name or '') == part[1])
+    return n
+
+
+def adopt_all(ref: 'RefTree', top) -> bool:
+    """take the implementation's attribute/namespace order; False when the structure differs (C02/tree reports it)."""
+    ok = True
+    try:
+        for rn in [r for r in ref.nodes if r.kind in ('element', 'document')]:
+            n = ep_find(top, rn.addr)
+            if n.node_kind != EP_KIND[rn.kind] or [c.node_kind for c in n.children] != [EP_KIND[c.kind] for c in rn.children]:
+                return False
+            if rn.kind == 'element':
+                ok &= ref.adopt_order(rn.addr, [x.name or '' for x in n.namespace_nodes], [x.name for x in n.attributes])
+    except (IndexError, StopIteration, AttributeError, TypeError):
+        return False
+    ref.renumber()
+    return ok
 
 
 def lxml_result_address(built, item, doc_top=True):
